@@ -271,6 +271,43 @@ def case_same_object(ctx, kind, ns, seq):
         have_output = True
 
 
+def case_shank_subset(ctx, ns):
+    """only some of the shanks are split (init_params(nshank=[0])): whatever the run answers, the original stays recoverable -
+    it may only disappear when EVERY channel lives in a verified split file"""
+    import neuropixel
+    F, raw, nc = _mk_original("NP2.4", ns)
+    opts = {"post_check": bool(ctx.bool("post_check")), "compress": bool(ctx.bool("compress")), "delete_original": bool(ctx.bool("delete_original"))}
+    p = ctx.int("p", 0, ns - 1)
+    conv = ctx.call("converter", neuropixel.NP2Converter, FakePath(ORIG), post_check=opts["post_check"], delete_original=opts["delete_original"], compress=opts["compress"])
+    conv.init_params(nwindow=1200, nshank=[0])
+    # the shanks left out carry signal (at least one non-zero sample): a comparison with the partial split cannot succeed by accident
+    other = [c for c in range(nc - 1) if MAP[c] != 0]
+    ctx.assume(not_(core.eq(np2env.raw_elem(0, other[0]), 0)))
+    try:
+        conv.process()
+    except AssertionError:
+        pass            # the verification may refuse a partial split
+    ctx.oblige("original_recoverable_after_a_partial_split", _recoverable(ctx, F, raw, ns, p, "NP2.4"), detail={"opts": opts})
+
+
+def case_delete_without_check(ctx, ns, after):
+    """the deletion step called directly on a converter whose verification never ran must leave the original alone"""
+    import neuropixel
+    F, raw, nc = _mk_original("NP2.4", ns)
+    post_check = bool(ctx.bool("post_check"))
+    conv = ctx.call("converter", neuropixel.NP2Converter, FakePath(ORIG), post_check=post_check, delete_original=True, compress=False)
+    conv.init_params(nwindow=1200)
+    if after == "rerun":
+        # a first converter produced the split files (unverified); this one finds them and does nothing
+        first = neuropixel.NP2Converter(FakePath(ORIG), post_check=False, delete_original=False, compress=False)
+        first.init_params(nwindow=1200)
+        ctx.call("first_run", first.process)
+        r = ctx.call("rerun", conv.process)
+        ctx.oblige("rerun_does_nothing", r == 0, detail={"status": r})
+    ctx.call("delete_step", conv.delete_NP24)
+    ctx.oblige("original_kept_when_no_verification_was_completed", _orig_intact(F, raw) and conv.check_completed is not True, detail={"post_check": post_check, "after": after})
+
+
 def case_failed_verification(ctx, ns, shank):
     """a split file is damaged after the split; the verification step then either finds the (arbitrary) new content equal
     or reports the mismatch - after a reported mismatch the deletion step must leave the original alone"""
@@ -301,6 +338,9 @@ def case_failed_verification(ctx, ns, shank):
 def cases(tier):
     b = bounds(tier)
     cs = []
+    cs.append(Case("np24_shank_subset", "case_shank_subset", {"ns": 600}, timeout_s=2400))
+    for after in ("nothing", "rerun"):
+        cs.append(Case(f"np24_delete_step_after_{after}", "case_delete_without_check", {"ns": 600, "after": after}, timeout_s=2400))
     for sh in ((0,) if tier == "quick" else (0, 1)):
         cs.append(Case(f"np24_failed_verification_shank{sh}", "case_failed_verification", {"ns": 600, "shank": sh}, timeout_s=2400))
     for seq in (["FFT", "FTF"] if tier == "quick" else ["FFT", "FTF", "TFT", "FFFT", "FTT"]):
@@ -354,6 +394,31 @@ def replay(case, params, cex):
     kind, ns = params.get("kind", "NP2.4"), params["ns"]
     fault1, ow1, second, third = params.get("fault1"), params.get("overwrite1", False), params.get("second"), params.get("third")
     full = _replay_text(cex, opts, kind, ns, fault1, ow1, second, third, compressed=bool(params.get("compressed_input")))
+    if "shank_subset" in case:
+        return full.split("from symex import realfault")[0] + f"""
+conv = neuropixel.NP2Converter(orig, post_check=opts['post_check'], delete_original=opts['delete_original'], compress=opts['compress'])
+conv.init_params(nwindow=1200, nshank=[0])
+try:
+    st = conv.process()
+    print('status', st)
+except AssertionError as e:
+    print('verification refused the partial split:', e)
+if not recoverable(): reproduced(f'after splitting only shank 0 (options {{opts}}) the original is gone and the other shanks exist nowhere: {{listing()}}')
+not_reproduced()
+"""
+    if "delete_step_after" in case:
+        return full.split("from symex import realfault")[0] + f"""
+after, post_check = {params['after']!r}, {bool(m.get('post_check'))}
+if after == 'rerun':
+    first = neuropixel.NP2Converter(orig, post_check=False, delete_original=False, compress=False); first.init_params(nwindow=1200); first.process()
+conv = neuropixel.NP2Converter(orig, post_check=post_check, delete_original=True, compress=False)
+conv.init_params(nwindow=1200)
+if after == 'rerun': print('re-run status', conv.process())
+conv.delete_NP24()
+print('check_completed', conv.check_completed, 'original exists', orig.exists())
+if not orig.exists(): reproduced(f'delete_NP24() removed the original although no verification was completed (post_check={{post_check}}, after {{after}})')
+not_reproduced()
+"""
     if "failed_verification" in case:
         return full.split("from symex import realfault")[0] + f"""
 shank = {params['shank']}
